@@ -120,6 +120,7 @@ func (r *fileImpl) Exec(h *vh.H, op string) string {
 	}
 	// the reader: protocompile on the printed text, summarised as a reader of the text sees it
 	second := "unread"
+	fix := "na"
 	if re, err := compileText(fd.Path(), text, depsOf(fd)); err == nil {
 		if s2, err := summarize2(re); err == nil {
 			second = s2
@@ -127,8 +128,18 @@ func (r *fileImpl) Exec(h *vh.H, op string) string {
 		} else {
 			h.Count("file.reread-summary-error")
 		}
+		// the second print: does printing what was read reproduce the text? (the model prints what its
+		// grammar read; the flag is compared, not demanded: print.reparse is the oracle for it)
+		if text2, err2, pan2 := printGuard(re); pan2 == nil && err2 == nil {
+			if text2 == text {
+				fix = "same"
+			} else {
+				fix = "differs"
+			}
+			h.Count("file.second-print-" + fix)
+		}
 	} else {
 		h.Count("file.reread-error")
 	}
-	return vh.Hex([]byte(text)) + " " + second
+	return vh.Hex([]byte(text)) + " " + second + " second-print=" + fix
 }
